@@ -733,8 +733,18 @@ class HostConnectionPool(object):
                 conn.set_keyspace_blocking(self._session.keyspace)
             self._next_trash_allowed_at = time.time() + _MIN_TRASH_INTERVAL
             with self._lock:
-                new_connections = self._connections[:] + [conn]
-                self._connections = new_connections
+                shut_down = self.is_shutdown
+                if shut_down:
+                    self.open_count -= 1
+                else:
+                    new_connections = self._connections[:] + [conn]
+                    self._connections = new_connections
+            if shut_down:
+                # shutdown() ran while this connection was being opened and did not see it
+                log.debug("Pool for host %s was shut down while connection (%s) was being opened, closing it",
+                          self.host, id(conn))
+                conn.close()
+                return True
             log.debug("Added new connection (%s) to pool for host %s, signaling availability",
                       id(conn), self.host)
             self._signal_available_conn()
